@@ -1,4 +1,4 @@
-//@serves C04 C05 C09 C10 C11 C14
+//@serves C04 C05 C09 C10 C11 C14 C15
 //@tier A
 //@include prelude/head.rs
 verus! {
@@ -8,6 +8,7 @@ verus! {
 //@include prelude/path.rs
 //@include prelude/errbase.rs
 //@include prelude/rustix.rs
+//@include prelude/creds.rs
 //@broadcast-here
 pub type RawMode = u32;
 pub struct OpenHowStub;
@@ -42,6 +43,7 @@ pub mod ledger {
 //@prove syscalls.fsconfig_create
 //@prove syscalls.fsmount
 //@prove syscalls.open_tree
+//@prove syscalls.geteuid
 }
 } // verus!
 fn main() {}
